@@ -618,8 +618,8 @@ func (c *TCPConn) RemoteAddr() net.Addr { return c.raddr }
 func (c *TCPConn) Peer() *TCPConn       { return c.peer }
 
 func (n *Net) newConnPair(roleA, roleB string, a, b *net.TCPAddr) (*TCPConn, *TCPConn) {
-	ca := &TCPConn{N: n, Role: roleA, laddr: a, raddr: b, notify: make(chan struct{}, 1), wnotify: make(chan struct{}, 1)}
-	cb := &TCPConn{N: n, Role: roleB, laddr: b, raddr: a, notify: make(chan struct{}, 1), wnotify: make(chan struct{}, 1)}
+	ca := &TCPConn{N: n, Role: roleA, laddr: a, raddr: b, notify: make(chan struct{}, 1), wnotify: make(chan struct{})}
+	cb := &TCPConn{N: n, Role: roleB, laddr: b, raddr: a, notify: make(chan struct{}, 1), wnotify: make(chan struct{})}
 	ca.peer, cb.peer = cb, ca
 	n.mu.Lock()
 	ca.Name = n.nameLocked(a.IP, a.Port) + ">" + n.nameLocked(b.IP, b.Port)
@@ -839,6 +839,9 @@ func (c *TCPConn) Write(p []byte) (int, error) {
 	}
 	if c.wnd > 0 && !scripted && !c.N.K.Free {
 		c.mu.Unlock()
+		if c.N.Obs != nil {
+			c.N.Obs.TCPWrite(c, p) // what the server means to send, at the instant it acts
+		}
 		return c.writeWindowed(p)
 	}
 	off := c.wrote
@@ -902,10 +905,11 @@ func (c *TCPConn) writeWindowed(p []byte) (int, error) {
 			continue
 		}
 		wdl := c.wdl
+		wake := c.wnotify // every blocked writer of this connection waits for the same broadcast
 		c.mu.Unlock()
 		c.N.K.Stats.Fault("stream:window-full")
 		if wdl.IsZero() {
-			<-c.wnotify
+			<-wake
 		} else {
 			d := time.Until(wdl)
 			if d <= 0 {
@@ -914,7 +918,7 @@ func (c *TCPConn) writeWindowed(p []byte) (int, error) {
 			}
 			t := time.NewTimer(d)
 			select {
-			case <-c.wnotify:
+			case <-wake:
 				t.Stop()
 			case <-t.C:
 			}
@@ -922,19 +926,22 @@ func (c *TCPConn) writeWindowed(p []byte) (int, error) {
 		// woken by the reader's goroutine: hand control back to the driver before going on
 		c.N.K.Yield("sock:"+c.Role+":Write", c.Name)
 	}
-	if c.N.Obs != nil && written > 0 && (err == nil || err == errTimeout) {
-		// what really went out: a write that a deadline cut short leaves a torn frame on a
-		// stream that stays in use
-		c.N.Obs.TCPWrite(c, p[:written])
+	if c.N.Obs != nil && written > 0 && written < len(p) && err == errTimeout {
+		// a write that a deadline cut short leaves a torn frame on a stream that stays in use
+		c.N.Obs.IOFaulted(c.Role, "TornWrite", fmt.Sprintf("%s>%s|%d of %d bytes", c.Name, akey(c.raddr.IP, c.raddr.Port), written, len(p)))
 	}
 	return written, err
 }
 
+// wakeWriter wakes every writer blocked on the window (several goroutines may write to one
+// connection: a relay loop and a request handler).
 func (c *TCPConn) wakeWriter() {
-	select {
-	case c.wnotify <- struct{}{}:
-	default:
+	c.mu.Lock()
+	if c.wnotify != nil {
+		close(c.wnotify)
+		c.wnotify = make(chan struct{})
 	}
+	c.mu.Unlock()
 }
 
 func (c *TCPConn) windowFor() int {
